@@ -26,7 +26,9 @@ RULE = ("four kinds of history: (overlap) the C11 case streams, with the default
         "headers declaring no order / Coordinate / BarcodesAndCoordinate / Unsorted / Unknown, sorting not asked for "
         "(assume_sorted=True passed or left at its default) / asked for / asked for but undecidable, += and .write(), "
         "records that fail Strict validation; (sorter) capacities 0-6, 0-20 adds, temp-dir "
-        "listing and spill-file record counts after every add. Non-trivial: at least 3 consumer actions with no error.")
+        "listing and spill-file record counts after every add. Oracle-only histories (outside the model): a handle that "
+        "raises BlockingIOError at one write call, one failing spill (mkstemp raises once) after which the caller keeps "
+        "adding, overlap inputs containing records without start/end; a long-sparse overlap case. Non-trivial: at least 3 consumer actions with no error.")
 ASSUMPTIONS = [
     "overlap inputs are list-backed counting iterators; the bound is claimed for histories without a raised error (a report loses the group in progress)",
     "scheme-less reader cases use Silent/Lenient stringency (parsing never raises); Strict reader cases use the built-in scheme gdc-1.0.0 with lines whose parsing raises MafFormatException before the next line is pulled (which physical lines fail is part of the case; the model takes it as given)",
@@ -183,10 +185,16 @@ def run_reader_file(case):
 
 
 class Handle:
-    def __init__(self):
+    def __init__(self, fail_at=None):
         self.w = []
+        self.calls = 0
+        self.fail_at = fail_at      # index of the write call that finds the pipe full
 
     def write(self, x):
+        n = self.calls
+        self.calls += 1
+        if self.fail_at is not None and n == self.fail_at:
+            raise BlockingIOError(11, "Resource temporarily unavailable")
         self.w.append(x)
 
     def close(self):
@@ -201,6 +209,7 @@ def run_writer(case):
 
     h = Handle()
     mode = case["mode"]
+    fault = case.get("fault")
     # the header may declare a sort order; mode 0 = the caller did not ask for sorting
     # (assume_sorted True, passed explicitly or left at its default), mode 1 = sorting asked
     # for and possible, mode 2 = sorting asked for but the declared order has no key
@@ -215,6 +224,8 @@ def run_writer(case):
     w = MafWriter(h, hdr, validation_stringency=VS.Silent, **kw)
     w.validation_stringency = VS.Strict
     base = len(h.w)
+    if fault is not None:
+        h.fail_at = h.calls + fault   # counted from the first write after construction
     steps = []
     checks = []
     for cols, line, _valid in case["recs"]:
@@ -236,7 +247,10 @@ def run_writer(case):
                        after[len(before):].count("\n") if after.startswith(before) else -1])
     if getattr(w, "_sorter", None) is not None:
         w._sorter.close()
-    return {"steps": steps, "_checks": checks}
+    obs = {"steps": steps, "_checks": checks}
+    if case.get("nomodel"):
+        obs["_nomodel"] = True
+    return obs
 
 
 def run_sorter(case):
@@ -271,6 +285,24 @@ def run_sorter(case):
 
     d = tempfile.mkdtemp(prefix="c19_")
     steps = []
+    import maflib.sorter as MS
+    real_tempfile = MS.tempfile
+    state = {"n": 0}
+
+    class TempfileProxy:
+        """the k-th mkstemp of the sorter finds no room (once); everything else is the real module"""
+
+        def __getattr__(self, name):
+            return getattr(real_tempfile, name)
+
+        def mkstemp(self, *a, **k):
+            state["n"] += 1
+            if state["n"] == case.get("fail_spill"):
+                raise OSError(28, "No space left on device")
+            return real_tempfile.mkstemp(*a, **k)
+
+    if case.get("fail_spill"):
+        MS.tempfile = TempfileProxy()
     try:
         s = Sorter(max_objects_in_ram=case["cap"], codec=Codec(), key_func=lambda x: (x * 7) % 5, tmp_dir=d)
         for i in range(case["n"]):
@@ -286,14 +318,21 @@ def run_sorter(case):
         except Exception:
             pass
     finally:
+        MS.tempfile = real_tempfile
         shutil.rmtree(d, ignore_errors=True)
-    return {"steps": steps}
+    obs = {"steps": steps}
+    if case.get("nomodel"):
+        obs["_nomodel"] = True
+    return obs
 
 
 def run_impl(case):
     w = case["what"]
     if w == "overlap":
-        return K.run_overlap(case["case"])
+        obs = K.run_overlap(case["case"])
+        if case.get("nomodel"):
+            obs["_nomodel"] = True
+        return obs
     if w == "reader":
         return run_reader(case)
     if w == "writer":
@@ -302,12 +341,18 @@ def run_impl(case):
 
 
 def comparable(obs):
+    if obs.get("_nomodel"):
+        # histories the model does not cover (injected I/O faults, records without position):
+        # judged by the oracle only
+        return {"nomodel": True}
     return {k: v for k, v in obs.items() if not k.startswith("_")}
 
 
 # ---------------------------------------------------------------- model wire
 def to_model(case):
     w = case["what"]
+    if case.get("nomodel"):
+        return [3, 1, 0]
     if w == "overlap":
         return K.m_overlap(case["case"])
     if w == "reader":
@@ -323,6 +368,8 @@ def from_model(case, sx):
     from sexp import U
 
     w = case["what"]
+    if case.get("nomodel"):
+        return {"nomodel": True}
     if w == "overlap":
         return K.d_overlap(sx)
     if w == "reader":
@@ -408,12 +455,13 @@ def oracle(case, obs):
                 out.append("writer-rewrote-earlier-output")
                 break
         return out
-    # sorter
+    # sorter: every add that returns normally must leave fewer than m of the accepted records unspilled
+    # (an add that raised makes no claim; the caller may carry on adding after a failed spill)
     m = case["cap"]
     added = 0
     for exc, mem, sizes in obs["steps"]:
         if exc is not None:
-            break
+            continue
         added += 1
         spilled = sum(sizes)
         if m >= 1 and not (0 <= added - spilled < m):
@@ -432,6 +480,8 @@ def classify(case, obs):
         return w + "/error"
     if w == "overlap":
         c = case["case"]
+        if case.get("nomodel"):
+            return "overlap/records-without-position"
         return "overlap/%s/%s%s" % (c["stream"], "plain" if c["kind"] == 0 else "allele",
                                    "/peekable-subclass" if c.get("peek_sub") and c["kind"] == 0 else "")
     if w == "reader":
@@ -441,10 +491,13 @@ def classify(case, obs):
             return "reader/reader_from-%s/lines=%s" % (case["file"], "0-3" if len(case["lines"]) < 4 else "4+")
         return "reader/%s/lines=%s" % ("iter" if case.get("via_iter") else "next", "0-3" if len(case["lines"]) < 4 else "4+")
     if w == "writer":
+        if case.get("fault") is not None:
+            return "writer/pipe-full-at-one-write"
         return "writer/mode=%d/order=%s/%s/%s" % (
             case["mode"], case.get("order"), "explicit" if case.get("explicit", True) else "default-assume-sorted",
             "all-valid" if all(v for _, _, v in case["recs"]) else "some-invalid")
-    return "sorter/cap=%s" % ("0" if case["cap"] == 0 else "1" if case["cap"] == 1 else "2+")
+    return "sorter/cap=%s%s" % ("0" if case["cap"] == 0 else "1" if case["cap"] == 1 else "2+",
+                                "/one-spill-fails" if case.get("fail_spill") else "")
 
 
 def nontrivial(case, obs):
@@ -564,7 +617,39 @@ def gen_writer(rng):
 
 
 def gen_sorter(rng):
-    return {"what": "sorter", "cap": rng.choice([0, 1, 1, 2, 2, 3, 4, 5, 6]), "n": rng.randint(0, 20)}
+    c = {"what": "sorter", "cap": rng.choice([0, 1, 1, 2, 2, 3, 4, 5, 6]), "n": rng.randint(0, 20)}
+    if c["cap"] >= 1 and rng.random() < 0.2:
+        # one spill finds the temporary directory full; the caller carries on adding
+        c["fail_spill"] = rng.randint(1, 3)
+        c["n"] = max(c["n"], c["cap"] * c["fail_spill"] + rng.randint(1, 2 * c["cap"] + 1))
+        c["nomodel"] = True
+    return c
+
+
+def gen_writer_fault(rng):
+    """an unsorted writer on a handle that finds the pipe full at one write call"""
+    c = gen_writer(rng)
+    c["mode"] = 0
+    c["recs"] = [r for r in c["recs"] if r[2]] or c["recs"][:1]
+    while len(c["recs"]) < 3:
+        c["recs"].append(list(c["recs"][0]))
+    c["fault"] = rng.randint(0, len(c["recs"]))
+    c["nomodel"] = True
+    return c
+
+
+def gen_overlap_noposition(rng):
+    """records whose start or end is missing (a damaged line handed out by a Silent reader)"""
+    c = K.gen_valid(rng, 0, 0)
+    c["rectype"] = rng.choice(["loc", "maf"])
+    recs = [r for inp in c["inputs"] for r in inp]
+    if not recs:
+        return gen_overlap(rng)
+    for r in rng.sample(recs, min(len(recs), rng.choice([1, 1, 2, 3]))):
+        r[rng.choice([K.ST, K.EN])] = None
+    if rng.random() < 0.5 and c["inputs"] and c["inputs"][0]:
+        c["inputs"][0][0][K.ST] = None
+    return {"what": "overlap", "case": c, "nomodel": True}
 
 
 def gen_overlap(rng):
@@ -588,7 +673,13 @@ def generate(rng, n):
     out = []
     for k in range(n):
         r = k % 12
-        if r < 5:
+        if k % 1200 == 13:
+            out.append({"what": "overlap", "case": K.gen_long_sparse(rng, rng.choice([0, 1]), 0, rng.randint(1100, 1500))})
+        elif k % 24 == 1:
+            out.append(gen_overlap_noposition(rng))
+        elif k % 24 == 8:
+            out.append(gen_writer_fault(rng))
+        elif r < 5:
             out.append(gen_overlap(rng))
         elif r < 8:
             out.append(gen_reader_strict(rng) if k % 36 in (5, 17) else
@@ -615,6 +706,8 @@ def corpus():
          "recs": [["A\tB", "1\t2", True], ["A\tB", "3\t4", True]]},
         {"what": "sorter", "cap": 3, "n": 10},
         {"what": "sorter", "cap": 2, "n": 5},
+        {"what": "sorter", "cap": 3, "n": 8, "fail_spill": 1, "nomodel": True},
+        {"what": "writer", "mode": 0, "fault": 3, "nomodel": True, "recs": [["A\tB", "%d\t%d" % (i, i), True] for i in range(5)]},
         {"what": "reader", "file": "gz", "lines": ["#a b\n", "A\tB\n"] + ["%d\t%d\n" % (i, i) for i in range(12)], "k": 3, "lenient": False, "via_iter": False},
         {"what": "reader", "file": "plain", "lines": ["A\tB\n"] + ["%d\t%d\n" % (i, i) for i in range(12)], "k": 3, "lenient": False, "via_iter": True},
         {"what": "overlap", "case": dict(K.corpus()[4], peek_sub=True)},
@@ -627,7 +720,7 @@ def shrink(case):
     w = case["what"]
     if w == "overlap":
         for c in K.shrink(case["case"]):
-            yield {"what": "overlap", "case": c}
+            yield dict(case, case=c)
     elif w == "reader" and case.get("strict"):
         ls = case["lines"]
         for i in range(2, len(ls)):          # keep the version pragma and the column line
